@@ -44,6 +44,11 @@ ASSUMPTIONS = [
     'arithmetic on union-typed nodes is only probed with one `eq` expression (a known finding makes every operator on '
     'them fail statically); document order between a defaulted attribute node and the element children is not judged',
     'substitution groups, wildcards, mixed content, assertions, identity constraints, ID/IDREF are not generated',
+    'a nilled element of a complex type whose simple content is a union or list type is not tested against '
+    'element(*, <that simple type>?) (xmlschema is_derived() is not reliable there); xsi:nil is spelled true, 1 and with '
+    'surrounding whitespace (valid for xmlschema), explicit false/0 on non-nilled elements',
+    'an exception that reaches the harness outside an evaluation call with an elementpath frame in its traceback is '
+    'reported as a discrepancy (escape-outside-evaluation), one without such a frame is a harness error',
 ]
 FLOORS = {
     'instance:valid': (0.99, 'instance'),
@@ -567,10 +572,16 @@ def judge_nodes(case, rec: Recorder | None = None) -> list[Disc]:
             if r.get('nil_padded'):
                 # xsi:nil spelled with surrounding whitespace (' true ', '1 '): a class of its own
                 classes.append('node:nil-padded')
-                for d in ds:
-                    # discrepancies that already belong to a root-cause class of the tested TYPE keep their bucket
-                    if not any(x in d.bucket for x in _TYPE_CLASS_SLOTS):
+                try:
+                    seen_nilled = ev.results(b.tree, f'nilled({r["xpath"]})', pidx, True)
+                except Exception as e:
+                    seen_nilled = repr(e)
+                if seen_nilled != [True] and seen_nilled is not True:
+                    # the padded spelling is not recognised at all: that is the failure, whatever else follows
+                    for d in ds:
                         d.bucket = d.bucket.replace('C20/', 'C20/nil-padded/', 1)
+                    ds.append(Disc('C20/nil-padded/nilled-function', True, repr(seen_nilled),
+                                   f'nilled({r["xpath"]}) with xsi:nil={r["nil"]!r}'))
             elif r['nil'] == '1':
                 classes.append('node:nil-1')
             discs.extend(ds)
@@ -587,10 +598,6 @@ def union_slot(sres, exp) -> str:
     if sres['variety'] == 'union' and exp and exp[0][2].startswith('later-member/'):
         return 'union-later'
     return sres['variety']
-
-
-_TYPE_CLASS_SLOTS = ('/unprefixed-type/', '/complex-type/', '/builtin-list-type/', '/qname-derived-type/', '/pattern-type/',
-                     '/union-later/')
 
 
 def _src(r) -> str:
@@ -707,6 +714,11 @@ def _judge_node(ev, b, spec, schema, r, pidx, xsd) -> list[Disc]:
             if r['nil']:
                 # a nilled element matches element(*, T?) only (XPath 3.1 section 2.5.5.3)
                 exprs.append((f'{r["xpath"]} instance of {st_text(t)}', False, tag + '/nilled'))
+                if want and res['variety'] == 'sc' and sres['variety'] != 'atomic' and \
+                        not (not t.startswith('xs:') and names[t][0] in ('sc', 'scext')) and t != 'xs:anyType':
+                    # no verdict: the derivation of a complex type from the union/list type of its simple content is
+                    # decided by xmlschema's is_derived(), which loses it after two extension steps
+                    continue
                 if want:
                     exprs.append((f'{r["xpath"]} instance of {st_text(t, True)}', True, tag + '/nilled-optional'))
             else:
